@@ -55,15 +55,24 @@ def mk_exc(i: int) -> Exception:
     return EXC_CLASSES[i % len(EXC_CLASSES)](f"e{i}")
 
 
+def _td(rng: random.Random, x: Any) -> Any:
+    """a time argument as the API accepts it: a number of seconds or (30%) the same duration as a timedelta (days included)"""
+    import datetime
+
+    if x is not None and rng.random() < 0.3:
+        return datetime.timedelta(seconds=x)
+    return x
+
+
 def gen_wleaf(rng: random.Random) -> tuple[Any, str]:
     k = rng.randrange(6)
     D = [0, 0.5, 1, 2, 3, 0.25]
     if k == 0:
-        w = rng.choice(D + [5, 10])
-        return RP.wait_fixed(w), f"fixed {q(w)}"
+        w = rng.choice(D + [5, 10, 90000, 172805])
+        return RP.wait_fixed(_td(rng, w)), f"fixed {q(w)}"
     if k == 1:
-        m, b, mx, mn = rng.choice([0.5, 1, 2, 3]), rng.choice([1, 2, 3, 1.5]), rng.choice([1, 8, 60, 100]), rng.choice([0, 0.5, 2, -1])
-        return RP.wait_exponential(multiplier=m, exp_base=b, max=mx, min=mn), f"exp {q(m)} {q(b)} {q(mx)} {q(mn)}"
+        m, b, mx, mn = rng.choice([0.5, 1, 2, 3]), rng.choice([1, 2, 3, 1.5]), rng.choice([1, 8, 60, 100, 90000]), rng.choice([0, 0.5, 2, -1])
+        return RP.wait_exponential(multiplier=m, exp_base=b, max=_td(rng, mx), min=_td(rng, mn)), f"exp {q(m)} {q(b)} {q(mx)} {q(mn)}"
     if k == 2:
         s, i = rng.choice(D), rng.choice([0.5, 1, 2, 100, -1])
         mx = rng.choice([None, 2, 10, 1000])
@@ -71,8 +80,8 @@ def gen_wleaf(rng: random.Random) -> tuple[Any, str]:
         return obj, f"inc {q(s)} {q(i)} {'inf' if mx is None else q(mx)}"
     if k == 3:
         mn = rng.choice([0, 0.5, 1, 2])
-        mx = mn + rng.choice([0, 0.5, 1, 2, 4])
-        return RP.wait_random(min=mn, max=mx), f"rand {q(mn)} {q(mx)}"
+        mx = mn + rng.choice([0, 0.5, 1, 2, 4, 86400])
+        return RP.wait_random(min=_td(rng, mn), max=_td(rng, mx)), f"rand {q(mn)} {q(mx)}"
     if k == 4:
         i, b, mx, j = rng.choice([0.5, 1, 2]), rng.choice([1, 2, 3]), rng.choice([8, 30, 60]), rng.choice([0, 0.5, 1, 2])
         return RP.wait_exponential_jitter(initial=i, exp_base=b, max=mx, jitter=j), f"jit {q(i)} {q(b)} {q(mx)} {q(j)}"
@@ -103,11 +112,11 @@ def gen_sleaf(rng: random.Random) -> tuple[Any, str]:
         n = rng.choice([0, 1, 2, 3, 5, -1])
         return RP.stop_after_attempt(n), f"att {q(n)}"
     if k == 1:
-        d = rng.choice([0, 0.5, 2, 5, 10])
-        return RP.stop_after_delay(d), f"del {q(d)}"
+        d = rng.choice([0, 0.5, 2, 5, 10, 90000, 172800])
+        return RP.stop_after_delay(_td(rng, d)), f"del {q(d)}"
     if k == 2:
-        d = rng.choice([0.5, 2, 5, 10])
-        return RP.stop_before_delay(d), f"bef {q(d)}"
+        d = rng.choice([0.5, 2, 5, 10, 90000])
+        return RP.stop_before_delay(_td(rng, d)), f"bef {q(d)}"
     return RP.stop_never(), "never"
 
 
@@ -181,7 +190,7 @@ def correspondence(env: Env, out: Outcome, n: int) -> None:
             if kind < 0.5:
                 (c, cs), (w, ws), (s, ss) = gen_cond(rng), gen_wait(rng), gen_stop(rng)
                 pol = RP.retry_policy(retry=c, wait=w, stop=s)
-                el = rng.choice([0, 0.5, 1, 2.5, 5, 10, 100])
+                el = rng.choice([0, 0.5, 1, 2.5, 5, 10, 100, 4000, 100000])
                 e = rng.randrange(10)
                 ops.append(f"next {cs} {ws} {ss} {q(el)} {attempts} {e} {u}")
                 first = fmt(pol.next(el, attempts, mk_exc(e), seed=seed))
@@ -200,7 +209,7 @@ def correspondence(env: Env, out: Outcome, n: int) -> None:
                 out.count("wait:" + ws.split()[0])
             elif kind < 0.92:
                 s, ss = gen_stop(rng)
-                el, up = rng.choice([0, 0.5, 2, 5, 10]), rng.choice([0, 0.5, 2, 5])
+                el, up = rng.choice([0, 0.5, 2, 5, 10, 4000, 100000]), rng.choice([0, 0.5, 2, 5])
                 ops.append(f"stop {ss} {attempts} {q(el)} {q(up)}")
                 exp.append("1" if s(attempts, el, upcoming_sleep=up) else "0")
                 out.count("stop")
@@ -265,6 +274,35 @@ def extreme_and_seed_stream(env: Env, out: Outcome, n: int) -> None:
         vals = {j(0, seed=s) for s in range(seed % 1000, seed % 1000 + 8)}
         if len(vals) < 4:
             out.violations.append(Violation("C07/jitter_ignores_seed", f"wait_random gives {len(vals)} distinct values for 8 seeds", case))
+
+
+def units_stream(env: Env, out: Outcome, n: int) -> None:
+    """implementation only: a time argument written as a timedelta means the same as its total number of seconds"""
+    import datetime
+
+    rng = random.Random(env.rng.randrange(1 << 30))
+    secs = [0, 0.5, 1.5, 59, 3600, 86399, 86400, 90000, 172805, 7 * 86400]
+    for _ in range(n):
+        x = rng.choice(secs)
+        td = datetime.timedelta(seconds=x)
+        k = rng.choice([0, 1, 2, 5])
+        seed = rng.randrange(1 << 20)
+        el = rng.choice([0, 1, 100, 3599, 3600, 86400, 90001, 10 ** 6])
+        pairs = [("wait_fixed", RP.wait_fixed(x), RP.wait_fixed(td), lambda o: o(k, seed=seed)),
+                 ("wait_exponential(max)", RP.wait_exponential(multiplier=1e6, max=x), RP.wait_exponential(multiplier=1e6, max=td), lambda o: o(k, seed=seed)),
+                 ("wait_incrementing(start)", RP.wait_incrementing(start=x, increment=1, max=10 ** 7), RP.wait_incrementing(start=td, increment=1, max=10 ** 7), lambda o: o(k, seed=seed)),
+                 ("wait_random(max)", RP.wait_random(min=0, max=x), RP.wait_random(min=0, max=td), lambda o: o(k, seed=seed)),
+                 ("stop_after_delay", RP.stop_after_delay(x), RP.stop_after_delay(td), lambda o: o(k, el, upcoming_sleep=0)),
+                 ("stop_before_delay", RP.stop_before_delay(x), RP.stop_before_delay(td), lambda o: o(k, el, upcoming_sleep=1))]
+        for name, a, b, f in pairs:
+            out.evaluations += 1
+            va, vb = f(a), f(b)
+            if va != vb:
+                out.violations.append(Violation(f"{env.prop}/timedelta_argument_differs:{name}",
+                                                f"{name}({x}) answers {va!r} but {name}(timedelta(seconds={x})) answers {vb!r} (attempts={k}, elapsed={el})",
+                                                {"strategy": name, "seconds": x, "attempts": k, "elapsed": el, "seed": seed}))
+        out.count("units")
+        out.nontrivial(("units", x, k, el))
 
 
 def budget_stream(env: Env, out: Outcome, n: int) -> None:
@@ -341,6 +379,17 @@ def algebra_stream(env: Env, out: Outcome, n: int) -> None:
             out.violations.append(Violation("C07/combine_not_sum", f"wait_combine of {parts} gave {RP.wait_combine(*ws)(k, seed=seed)}", case))
         if m >= 2 and abs((ws[0] + ws[1])(k, seed=seed) - (parts[0] + parts[1])) > 1e-9 * max(1.0, abs(parts[0] + parts[1])):
             out.violations.append(Violation("C07/plus_not_sum", "a + b is not the sum of a and b", case))
+        if m >= 3:
+            # a combined strategy that is used again as an operand stays what it was: base = a + b; ext = base + c
+            base = ws[0] + ws[1]
+            before = base(k, seed=seed)
+            ext = base + ws[2]
+            ext2 = RP.wait_combine(base, ws[2])
+            after = base(k, seed=seed)
+            want = parts[0] + parts[1] + parts[2]
+            if after != before or abs(ext(k, seed=seed) - want) > 1e-9 * max(1.0, abs(want)) or abs(ext2(k, seed=seed) - want) > 1e-9 * max(1.0, abs(want)):
+                out.violations.append(Violation("C07/operand_changed_by_plus", f"base = a + b gave {before}; after ext = base + c it gives {after}, ext gives {ext(k, seed=seed)} "
+                                                f"(sum of the three parts {want})", case))
         sv = [s_(k, el, upcoming_sleep=up) for s_ in ss]
         if RP.stop_any(*ss)(k, el, upcoming_sleep=up) != any(sv) or RP.stop_all(*ss)(k, el, upcoming_sleep=up) != all(sv):
             out.violations.append(Violation("C07/stop_algebra", f"stop_any/stop_all disagree with or/and of {sv}", case))
